@@ -5,7 +5,7 @@ def plan(tier):
         "families": [{"fam": "banded", "trace": "AlignmentTrace", "nfiles": 4}],
         "required_obligations": ["exhaustive_small", "alphabet_high_bit_twins", "w_zero", "empty_x", "both_empty", "x_shorter_than_k",
                                  "explicit_empty_matches", "expanded_matches", "explicit_path",
-                                 "band_from_kmer_matches", "no_kmer_match_full_band", "over_cell_budget"],
+                                 "band_from_kmer_matches", "no_kmer_match_full_band", "over_cell_budget", "thin_band_in_huge_matrix"],
         "rule": "one run = one banded Aligner (k,w) reused across entry points and sizes; exhaustive: all x,y over "
                 "{A,C} incl. empty up to length 2 (quick) / 3 (thorough) x k in 1..3 x w in 0..2 x scheme grid x "
                 "{custom,global,semiglobal,local}; random: planted shared k-mers, |x|,|y|<=40, all nine entry points "
